@@ -32,6 +32,12 @@ PYDANTIC_ROOTS = {"BaseModel", "SimComponent"}
 ENUM_ROOTS = {"Enum", "IntEnum", "StrEnum", "Flag", "IntFlag"}
 IMPORT_TIME_FUNCS = {"__init_subclass__", "__pydantic_init_subclass__"}
 RNG_SEEDERS = {"seed"}
+# F-11 repair: the decorator `own_generator_state` saves / restores the STATE of the generators; neither is a draw
+RNG_STATE_CALLS = {"getstate", "setstate", "get_state", "set_state"}
+
+
+def is_draw(call: str) -> bool:
+    return call.split(".")[-1] not in RNG_SEEDERS | RNG_STATE_CALLS
 LOCAL_GENERATOR_FACTORIES = {"default_rng", "Generator", "RandomState", "SeedSequence", "PCG64"}
 
 
@@ -891,7 +897,7 @@ def readers_reachable_from(inv: "Inventory", roots: List[str], entry: str) -> Tu
 def drawers_reachable_from(inv: "Inventory", roots: List[str]) -> Tuple[List[str], bool]:
     """functions that draw from a process-global generator, statically reachable from the given functions"""
     cg = inv.callgraph
-    drawers = {f for (_, f, c) in inv.rng if c.split(".")[-1] not in RNG_SEEDERS}
+    drawers = {f for (_, f, c) in inv.rng if is_draw(c)}
     seen: Dict[Tuple[str, Optional[str]], int] = {}
     trunc = False
     for r in roots:
@@ -1068,8 +1074,7 @@ def emit() -> str:
     # F-11 repair: `__init__` / `reset` / `step` of the environment classes run on the environment's OWN saved generator state (decorator
     # `own_generator_state`); every OTHER method of those classes (close, action_masks, _get_obs, the properties, …) runs on whatever the
     # process-wide generators hold - so none of them may reach a function that draws from one
-    state_calls = {"seed", "getstate", "setstate", "get_state", "set_state"}
-    true_drawers = {f for (_, f, c) in inv.rng if c.split(".")[-1] not in state_calls}
+    true_drawers = {f for (_, f, c) in inv.rng if is_draw(c)}
     cg = inv.callgraph
     unowned = []
     for q in sorted(cg.byqual):
